@@ -369,13 +369,14 @@ worker_start(void *thr_ptr)
 		// Wait for work.
 		mythread_sync(thr->mutex) {
 			while (true) {
-				// The thread is already idle so if we are
-				// requested to stop, just set the state.
-				if (thr->state == THR_STOP) {
-					thr->state = THR_IDLE;
-					mythread_cond_signal(&thr->cond);
-				}
-
+				// threads_stop() doesn't touch idle threads.
+				// If we see THR_STOP here, the main thread
+				// took this thread into use (it isn't in
+				// coder->threads_free anymore) but stopped
+				// it before we woke up. Skip the encoding
+				// but go through the same steps as after
+				// encoding so that this thread gets returned
+				// to coder->threads_free.
 				state = thr->state;
 				if (state != THR_IDLE)
 					break;
@@ -387,7 +388,6 @@ worker_start(void *thr_ptr)
 		size_t out_pos = 0;
 
 		assert(state != THR_IDLE);
-		assert(state != THR_STOP);
 
 		if (state <= THR_FINISH)
 			state = worker_encode(thr, &out_pos, state);
@@ -447,8 +447,14 @@ threads_stop(lzma_stream_coder *coder, bool wait_for_threads)
 	// Tell the threads to stop.
 	for (uint32_t i = 0; i < coder->threads_initialized; ++i) {
 		mythread_sync(coder->threads[i].mutex) {
-			coder->threads[i].state = THR_STOP;
-			mythread_cond_signal(&coder->threads[i].cond);
+			// An idle thread is either in coder->threads_free
+			// or about to put itself there. There is nothing
+			// to stop.
+			if (coder->threads[i].state != THR_IDLE) {
+				coder->threads[i].state = THR_STOP;
+				mythread_cond_signal(
+						&coder->threads[i].cond);
+			}
 		}
 	}
 
@@ -461,6 +467,24 @@ threads_stop(lzma_stream_coder *coder, bool wait_for_threads)
 			while (coder->threads[i].state != THR_IDLE)
 				mythread_cond_wait(&coder->threads[i].cond,
 						&coder->threads[i].mutex);
+		}
+	}
+
+	// A thread marks itself idle before it updates the progress
+	// information and returns itself to coder->threads_free. Wait
+	// until all threads have done that too so that they won't
+	// touch the coder or the output queue anymore.
+	mythread_sync(coder->mutex) {
+		while (true) {
+			uint32_t count = 0;
+			for (const worker_thread *t = coder->threads_free;
+					t != NULL; t = t->next)
+				++count;
+
+			if (count == coder->threads_initialized)
+				break;
+
+			mythread_cond_wait(&coder->cond, &coder->mutex);
 		}
 	}
 
@@ -1100,13 +1124,6 @@ stream_encoder_mt_init(lzma_next_coder *next, const lzma_allocator *allocator,
 		coder->threads_initialized = 0;
 	}
 
-	// Basic initializations
-	coder->sequence = SEQ_STREAM_HEADER;
-	coder->block_size = (size_t)(block_size);
-	coder->outbuf_alloc_size = (size_t)(outbuf_size_max);
-	coder->thread_error = LZMA_OK;
-	coder->thr = NULL;
-
 	// Allocate the thread-specific base structures.
 	assert(options->threads > 0);
 	if (coder->threads_max != options->threads) {
@@ -1130,6 +1147,14 @@ stream_encoder_mt_init(lzma_next_coder *next, const lzma_allocator *allocator,
 		// threads to stop and wait until they have stopped.
 		threads_stop(coder, true);
 	}
+
+	// Basic initializations. These must not be done before the old
+	// threads have been stopped because the threads read some of these.
+	coder->sequence = SEQ_STREAM_HEADER;
+	coder->block_size = (size_t)(block_size);
+	coder->outbuf_alloc_size = (size_t)(outbuf_size_max);
+	coder->thread_error = LZMA_OK;
+	coder->thr = NULL;
 
 	// Output queue
 	return_if_error(lzma_outq_init(&coder->outq, allocator,
